@@ -35,6 +35,7 @@ CatType(c) ==
     [] c = "map" -> Mp(Str, Str)
     [] c = "rawlist" -> RawList
     [] c = "rawmap" -> RawMap
+    [] c = "voidarr" -> Arr(Void)
     [] c \in {"IBinder", "FileDescriptor", "ParcelFileDescriptor", "ParcelableHolder"} -> Named(<<c>>)
     [] c = "interface" -> Named(<<"Ti">>)
     [] c = "parcelable" -> Named(<<"Tp">>)
@@ -104,7 +105,7 @@ DeepArrays == {[k \in 1..n |-> "array"] : n \in 3..4}
 ContSpace == [fam : {"cont"}, path : CtorPaths \cup DeepArrays \cup {<<"list">> \o d : d \in DeepArrays}, leaf : Leaves, at : Positions]
              \cup [fam : {"cont2"}, l1 : Leaves, l2 : Leaves, at : {"arg", "field"}]
 
-LeafCat(l) == IF l \in {"rawlist", "rawmap"} THEN "prim" ELSE l   \* raw containers need no context
+LeafCat(l) == IF l \in {"rawlist", "rawmap", "voidarr"} THEN "prim" ELSE l   \* these need no project context
 
 PlaceType(ty, at, imports, fwds) ==
   CASE at = "field" -> File("a", <<"p">>, imports, fwds, "parcelable", "P", FALSE, <<Field(ty, "f")>>)
@@ -144,7 +145,7 @@ BuildMeth(s) ==
 -----------------------------------------------------------------------------
 (* C10: interface oneway x per-method oneway x return category *)
 
-RetCats == Cats
+RetCats == Cats \cup {"voidarr"}
 SmallRet == {"void", "prim", "parcelable", "list"}
 OwSpace == [fam : {"ow"}, iow : BOOLEAN, ms : UNION {[1..n -> BOOLEAN \X RetCats] : n \in 1..2}, cm : BOOLEAN]
            \cup (IF Thorough THEN [fam : {"ow"}, iow : BOOLEAN, ms : [1..3 -> BOOLEAN \X SmallRet], cm : BOOLEAN] ELSE {})
